@@ -38,6 +38,10 @@ func closeMain(args []string) {
 		closeScenario(rand.New(rand.NewSource(r.Int63())), sum)
 		n++
 	}
+	if cf.replay == "" && !sum.tooMany() {
+		closeDuringBackoff(sum)
+		n++
+	}
 	sum.Cases = n
 	sum.finish(start, cf.out)
 }
